@@ -545,6 +545,53 @@ pub fn gen_hist<W: Write>(prop: &str, r: &mut Rng, thorough: bool, out: &mut W) 
                 let t = r.below(nsamp + 1);
                 writeln!(out, "{head} ops=~ obs=dist/{t}/{};dist/0/1;rawdist/{}", r.below(2), r.below(5)).unwrap();
             }
+            _ if round % 4 == 3 => {
+                // C10, targeted: an operation that stores something other than the plain sample count
+                // (weed with --filter-ambig-as-missing and an active filter), then an operation that
+                // could be tempted to reuse it (delete / align / another weed), on rows mixing
+                // ambiguity codes with single unambiguous bases
+                let ns = 2 + r.below(4);
+                let names: Vec<String> = (0..ns).map(|i| format!("s{i}")).collect();
+                let mut rows: Vec<String> = Vec::new();
+                for _ in 0..(2 + r.below(8)) {
+                    let arms = canonical_arms(r, k, rc);
+                    let mut cells: Vec<u8> = (0..ns).map(|_| match r.below(5) {
+                        0 => b'-',
+                        1 | 2 => *r.pick(&AMBIG),
+                        _ => *r.pick(&CODE_ORDER),
+                    }).collect();
+                    // exactly one unambiguous base fairly often
+                    if r.chance(1, 2) {
+                        for c in cells.iter_mut() {
+                            if b"ACGT".contains(c) {
+                                *c = *r.pick(&[b'R', b'Y', b'-']);
+                            }
+                        }
+                        let i = r.below(ns);
+                        cells[i] = *r.pick(&CODE_ORDER);
+                    }
+                    if cells.iter().all(|c| *c == b'-') {
+                        cells[0] = b'A';
+                    }
+                    rows.push(format!("{}:{}", pack(&arms), String::from_utf8(cells).unwrap()));
+                }
+                let tf = r.below(2);
+                let first = format!("weed/~/0/{tf}/1/{}/0/{}", if tf == 0 { *r.pick(&["noconst", "noambigorconst", "noambig"]) } else { *r.pick(&FTS) }, r.below(2));
+                let second = match r.below(3) {
+                    0 => format!("delete/{}", names[r.below(ns)]),
+                    1 => {
+                        let mut d: Vec<String> = names.iter().filter(|_| r.chance(1, 2)).cloned().collect();
+                        if d.is_empty() || d.len() == ns {
+                            d = vec![names[0].clone()];
+                        }
+                        format!("delete/{}", d.join("+"))
+                    }
+                    _ => format!("weed/~/0/{}/0/nofilter/0/0", 1 + r.below(ns)),
+                };
+                // thresholds at most 1: the delete may leave a single sample
+                let obs = format!("nk;{};dist/{}/{}", align_obs(r, 1), r.below(2), r.below(2));
+                writeln!(out, "hist w={w} k={k} rc={} start={}|{} ops={first};{second} obs={obs}", rc as u8, names.join(","), rows.join(",")).unwrap();
+            }
             _ => {
                 // C10: arbitrary histories
                 let len = 1 + r.below(if thorough { 8 } else { 5 });
